@@ -187,3 +187,37 @@ func buildGuard(a *ref.AP, t *sim.Tape) (p mq.Packet, ops []drv.Op, err error) {
 	}
 	return
 }
+
+// overlongRL re-encodes the remaining length of a frame in a non-minimal form
+// with extra continuation bytes (the library accepts such headers; MQTT does
+// not allow them, so such a frame is "content-malformed with a truthful
+// header": it must still be consumed exactly and decoded consistently).
+func overlongRL(frame []byte, extra int) []byte {
+	h := hdrLen(frame)
+	rl, n, ok := lenientRL(frame[1:h])
+	if !ok || n+extra > 4 {
+		return frame
+	}
+	out := []byte{frame[0]}
+	v := rl
+	for i := 0; i < n+extra; i++ {
+		d := byte(v & 0x7f)
+		v >>= 7
+		if i < n+extra-1 {
+			d |= 0x80
+		}
+		out = append(out, d)
+	}
+	return append(out, frame[h:]...)
+}
+
+func lenientRL(b []byte) (uint32, int, bool) {
+	var v uint32
+	for k := 0; k < 4 && k < len(b); k++ {
+		v |= uint32(b[k]&0x7f) << (7 * uint(k))
+		if b[k]&0x80 == 0 {
+			return v, k + 1, true
+		}
+	}
+	return 0, 0, false
+}
